@@ -76,7 +76,7 @@ func main() {
 		shard    = flag.Int("shard", 0, "shard index")
 		nshards  = flag.Int("nshards", 1, "number of shards (processes) exploring this harness")
 		splitk   = flag.Int("splitk", 7, "fork depth at which subtrees are assigned to shards")
-		auxbin   = flag.String("aux", "z3,z3-new", "fallback (non-incremental) solver binary")
+		auxbin   = flag.String("aux", "z3,z3-new,cvc5int", "fallback (non-incremental) solver binary")
 		noifconv = flag.Bool("noifconv", false, "disable if-conversion")
 		listFns  = flag.Bool("list", false, "list harness functions in the package and exit")
 		gobin    = flag.String("gobin", "/opt/veriftools/go1.26.8/bin", "directory of the go toolchain used to load the repository")
